@@ -336,6 +336,8 @@ class Histogram1D(ObjectWithBinning, HistogramBase):
             self._get_axis(axis)  # Check that it is valid
         if not np.isscalar(value):
             raise ValueError(f"Non-scalar value for 1D histogram: {value}")
+        if np.isnan(value):
+            return None
         ixbin = np.searchsorted(self.bin_left_edges, value, side="right").item()
         if ixbin == 0:
             return -1
@@ -366,6 +368,8 @@ class Histogram1D(ObjectWithBinning, HistogramBase):
         Note: Name was selected because of the eponymous method in ROOT
         """
         self._coerce_dtype(type(weight))
+        if np.isscalar(value) and np.isnan(value):
+            return None  # NaN is skipped, as in fill_n and at construction
         if self._binning.is_adaptive():
             bin_map = self._binning.force_bin_existence(value)
             self._reshape_data(self._binning.bin_count, bin_map)
